@@ -58,7 +58,7 @@ func C06(tier common.Tier) int {
 		fx = append(fx, fixture{"chain/" + sh.Name, e4.Chain(sh)})
 	}
 	for i, sh := range shapes {
-		if i == 3 || (thorough && i == 0) {
+		if i == 3 || i == 1 || (thorough && i == 0) {
 			fx = append(fx, fixture{"diamond/" + sh.Name, e4.Diamond(sh)})
 		}
 	}
@@ -109,6 +109,8 @@ func C06(tier common.Tier) int {
 		loaded[i] = ld
 	}
 	var mu sync.Mutex
+	// full message texts per (fixture, package) across all cells: must be a single rendering
+	texts := map[string]map[string]string{}
 	drv.ParallelDo(len(cells), common.NumWorkers(), func(ci int) {
 		c := cells[ci]
 		f := fx[c.fx]
@@ -151,6 +153,23 @@ func C06(tier common.Tier) int {
 			}
 			want := e4.Wants(f.p, pk.Path)
 			outcome += pk.Path + "=" + strings.Join(got, ",") + ";"
+			var tl []string
+			for _, d := range diags {
+				if d.Pkg == pk.Path {
+					// the excerpt is absent in-process (files are not on disk): compare the header line, which carries all computed text
+					tl = append(tl, fmt.Sprintf("%s:%d:%d|%s|%s", d.File, d.Line, d.Col, d.Analyzer, messageHead(d.Message)))
+				}
+			}
+			sort.Strings(tl)
+			mu.Lock()
+			key := f.name + "|" + pk.Path
+			if texts[key] == nil {
+				texts[key] = map[string]string{}
+			}
+			if _, ok := texts[key][strings.Join(tl, "\n")]; !ok {
+				texts[key][strings.Join(tl, "\n")] = fmt.Sprintf("%s runset=%v", c.driver, c.runset)
+			}
+			mu.Unlock()
 			if strings.Join(got, "|") != strings.Join(want, "|") {
 				missing, extra := diffKeys(want, got)
 				run.Report(common.Cex{
@@ -170,9 +189,35 @@ func C06(tier common.Tier) int {
 		}
 	})
 	run.Count("driver_cells", len(cells))
+	for key, m := range texts {
+		if len(m) > 1 {
+			var where []string
+			for _, w := range m {
+				where = append(where, w)
+			}
+			sort.Strings(where)
+			run.Report(common.Cex{Sig: "message-text-differs-between-cells|" + key[strings.Index(key, "|")+1:],
+				Summary: fmt.Sprintf("the diagnostics of %s are not textually identical in all drivers / run sets; first cells of each distinct rendering: %v", key, where),
+				Detail:  map[string]any{"renderings": m}})
+		}
+	}
 
 	factValueSpace(run, thorough)
 	return run.Finish()
+}
+
+// messageHead is the message up to the source excerpt (the excerpt needs the file on disk).
+func messageHead(msg string) string {
+	lines := strings.Split(msg, "\n")
+	var keep []string
+	for _, l := range lines {
+		t := strings.TrimSpace(l)
+		if t == "|" || strings.Contains(l, " | ") || strings.HasPrefix(t, "= help:") {
+			break
+		}
+		keep = append(keep, l)
+	}
+	return strings.TrimRight(strings.Join(keep, "\n"), "\n ")
 }
 
 func driverClass(d string) string {
